@@ -12,21 +12,22 @@ import (
 
 // SStep is one action of a scripted server: what it answers to the client's next envelope.
 type SStep struct {
-	Op      string   `json:"op"`                // auto, session, data, garbage, half, close, reset, silent
-	State   string   `json:"state,omitempty"`   // explicit session state
-	IDMode  int      `json:"id_mode,omitempty"` // 0 the session id, 1 none, 2 a fresh different id
-	Comp    []string `json:"comp,omitempty"`    // option lists (negotiating offer)
-	Enc     []string `json:"enc,omitempty"`
-	SelComp string   `json:"sel_comp,omitempty"` // confirmation
-	SelEnc  string   `json:"sel_enc,omitempty"`
-	Schemes []string `json:"schemes,omitempty"`
-	RT      bool     `json:"rt,omitempty"`   // carry round-trip authentication data
-	From    int      `json:"from,omitempty"` // node variants for from/to
-	To      int      `json:"to,omitempty"`
-	Reason  bool     `json:"reason,omitempty"`
-	Garbage int      `json:"garbage,omitempty"`
-	Kind    int      `json:"kind,omitempty"`
-	Then    string   `json:"then,omitempty"` // session steps: "close" or "reset" right behind the envelope, without waiting for the client
+	Op       string   `json:"op"`                // auto, session, data, garbage, half, close, reset, silent
+	State    string   `json:"state,omitempty"`   // explicit session state
+	IDMode   int      `json:"id_mode,omitempty"` // 0 the session id, 1 none, 2 a fresh different id
+	Comp     []string `json:"comp,omitempty"`    // option lists (negotiating offer)
+	Enc      []string `json:"enc,omitempty"`
+	SelComp  string   `json:"sel_comp,omitempty"` // confirmation
+	SelEnc   string   `json:"sel_enc,omitempty"`
+	Schemes  []string `json:"schemes,omitempty"`
+	RT       bool     `json:"rt,omitempty"`   // carry round-trip authentication data
+	From     int      `json:"from,omitempty"` // node variants for from/to
+	To       int      `json:"to,omitempty"`
+	Reason   bool     `json:"reason,omitempty"`
+	Garbage  int      `json:"garbage,omitempty"`
+	Kind     int      `json:"kind,omitempty"`
+	NoReason bool     `json:"no_reason,omitempty"` // a failed session without the reason member
+	Then     string   `json:"then,omitempty"`      // session steps: "close" or "reset" right behind the envelope, without waiting for the client
 }
 
 // PlanC08 is one scripted-server run against a real client channel.
@@ -65,6 +66,7 @@ func genSStep(t *simrt.Tape) SStep {
 			s.Schemes = [][]string{{"guest"}, {"plain", "key"}, {}, {"bogus"}, {"guest", "guest"}}[t.Draw(5)]
 		}
 		s.RT = t.Draw(4) == 0
+		s.NoReason = t.Draw(3) == 0
 		if t.Draw(5) == 0 {
 			s.Then = []string{"close", "reset"}[t.Draw(2)]
 		}
@@ -162,7 +164,7 @@ func serverFrame(st SStep, sid string, last map[string]interface{}, nAuth *int) 
 		m["scheme"] = "external"
 		m["authentication"] = map[string]interface{}{"token": "challenge", "issuer": "srv"}
 	}
-	if st.Reason || st.State == "failed" {
+	if (st.Reason || st.State == "failed") && !st.NoReason {
 		m["reason"] = map[string]interface{}{"code": 13, "description": "scripted"}
 	}
 	for k, v := range m {
@@ -513,6 +515,7 @@ func init() {
 		PanicRule: "C08.panic",
 		Rule: "plans = (scripted server word of <= 12 steps answering one step per client envelope over {protocol-correct answer, explicit session envelope in any of 7 states incl. regressions with id none/same/changed, option lists empty/unknown/duplicated, " +
 			"confirmations not requested, scheme lists, round-trip data, arbitrary from/to, data envelope, garbage, half frame, FIN, RST, silence; a session envelope may be followed at once by FIN or RST}, what it sends after the client reported establishment, client encryption selector, authenticator, TLS configuration, " +
+			"the scripted server upgrades to TLS behind its own confirmation and may shape its first TLS flight (late delimiter, cut offset); after establishment the channel stops reporting an established session once a later session envelope that is not established arrived; a terminal answer under another id still makes the client close (consumption inferred from the order of events); " +
 			"EstablishSession deadline, server->client link faults); non-trivial = the real client connected; distinct = distinct (plan JSON, event-log hash)",
 	})
 }
